@@ -970,6 +970,115 @@ fn judge_f(opk: FOp, flt: FFlt, o: &FObs) -> Vec<(String, String)> {
     f
 }
 
+// Part I: a link resumed ON ANOTHER SESSION learns why THAT session stops.  A sender attached on session A is detached
+// (not closed) and resumed on session B (`DetachedSender::resume_on_session`); optionally A is ended locally
+// afterwards.  Then the peer ends B with an error: the next send on the link fails, says that the session stopped and
+// carries the peer's condition.
+pub async fn scenario_i(end_old_first: bool, receiver_side: bool) -> (Vec<(String, String)>, Vec<String>, Option<String>) {
+    let mut fails = vec![];
+    let mut auto = Auto::default();
+    auto.max_frame_size = 4096;
+    auto.grant_credit = Some(100);
+    let mut c = match scen::open_client(auto, 4096).await {
+        Ok(c) => c,
+        Err(e) => return (fails, vec![], Some(e)),
+    };
+    let mut sa = match scen::begin(&mut c, Session::builder()).await {
+        Ok(s) => s,
+        Err(e) => return (fails, vec![], Some(e)),
+    };
+    let mut sb = match scen::begin(&mut c, Session::builder()).await {
+        Ok(s) => s,
+        Err(e) => return (fails, vec![], Some(e)),
+    };
+    let cond = || amqp_error(AmqpError::ResourceLimitExceeded, "peer says no");
+    let what = format!("{} attached on session A, detached, resumed on session B{}; the peer ends B with resource-limit-exceeded", if receiver_side { "receiver" } else { "sender" }, if end_old_first { ", A ended by the application" } else { "" });
+    let result: String;
+    if !receiver_side {
+        let s = match drive(&mut c.peer, Sender::attach(&mut sa, "s", "q"), scen::H).await {
+            Some(Ok(s)) => s,
+            _ => return (fails, trace_to_strings(&c.peer.trace), Some("part I: attach failed".into())),
+        };
+        let det = match drive(&mut c.peer, s.detach(), scen::H).await {
+            Some(Ok(d)) => d,
+            _ => return (fails, trace_to_strings(&c.peer.trace), Some("part I: detach failed".into())),
+        };
+        let mut s = match drive(&mut c.peer, det.resume_on_session(&sb), scen::H).await {
+            Some(Ok(s)) => s,
+            other => return (fails, trace_to_strings(&c.peer.trace), Some(format!("part I: resume_on_session failed: {:?}", other.map(|r| r.map(|_| ()).map_err(|e| format!("{:?}", e.kind)))))),
+        };
+        settle(&mut c.peer, 2).await;
+        if end_old_first {
+            let _ = drive(&mut c.peer, sa.end(), scen::H).await;
+        }
+        let chb = c.peer.sessions.values().map(|x| x.our_channel).max().unwrap_or(1);
+        c.peer.send(chb, Performative::End(End { error: Some(cond()) }));
+        settle(&mut c.peer, 3).await;
+        result = drive(&mut c.peer, op(s.send("after the end of B")), OP_TIMEOUT + Duration::from_secs(5)).await.unwrap_or("TIMEOUT".into());
+    } else {
+        let r = match drive(&mut c.peer, Receiver::attach(&mut sa, "r", "q"), scen::H).await {
+            Some(Ok(r)) => r,
+            _ => return (fails, trace_to_strings(&c.peer.trace), Some("part I: attach failed".into())),
+        };
+        let det = match drive(&mut c.peer, r.detach(), scen::H).await {
+            Some(Ok(d)) => d,
+            _ => return (fails, trace_to_strings(&c.peer.trace), Some("part I: detach failed".into())),
+        };
+        let mut r = match drive(&mut c.peer, det.resume_on_session(&sb), scen::H).await {
+            Some(Ok(r)) => match r.complete_or(()) {
+                Ok(r) => r,
+                Err(_) => return (fails, trace_to_strings(&c.peer.trace), Some("part I: receiver resume incomplete".into())),
+            },
+            other => return (fails, trace_to_strings(&c.peer.trace), Some(format!("part I: resume_on_session failed: {:?}", other.map(|r| r.map(|_| ()).map_err(|e| format!("{:?}", e.kind)))))),
+        };
+        settle(&mut c.peer, 2).await;
+        if end_old_first {
+            let _ = drive(&mut c.peer, sa.end(), scen::H).await;
+        }
+        let chb = c.peer.sessions.values().map(|x| x.our_channel).max().unwrap_or(1);
+        c.peer.send(chb, Performative::End(End { error: Some(cond()) }));
+        settle(&mut c.peer, 3).await;
+        result = drive(&mut c.peer, op(r.recv::<Value>()), OP_TIMEOUT + Duration::from_secs(5)).await.unwrap_or("TIMEOUT".into());
+    }
+    if result == "TIMEOUT" {
+        fails.push(("resumed-on-other-session: op-hangs".to_string(), format!("{what}: the next operation on the link never returned")));
+    } else if result == "ok" {
+        fails.push(("resumed-on-other-session: op-succeeds".to_string(), format!("{what}: the next operation on the link returned Ok")));
+    } else {
+        if !result.contains("SessionStopped") {
+            fails.push(("resumed-on-other-session: wrong-scope".to_string(), format!("{what}: the next operation on the link reports {result}, which does not say that the session stopped")));
+        }
+        if !result.contains(COND_DBG) {
+            fails.push(("resumed-on-other-session: peer-error-lost".to_string(), format!("{what}: the next operation on the link reports {result}, without the peer's condition")));
+        }
+    }
+    drop(sb);
+    (fails, trace_to_strings(&c.peer.trace), None)
+}
+
+fn part_i(out: &mut Outcome) -> u64 {
+    let mut n = 0;
+    for end_old_first in [false, true] {
+        for receiver_side in [false, true] {
+            let scen: Scenario<(Vec<(String, String)>, Vec<String>, Option<String>)> = Arc::new(move || Box::pin(scenario_i(end_old_first, receiver_side)));
+            let ex = run_exec(vec![], &RunCfg::none(), &scen);
+            n += 1;
+            match ex.out {
+                Some((fails, trace, mach)) => {
+                    if let Some(m) = mach {
+                        out.machinery_errors.push(m);
+                    }
+                    for (s, d) in fails {
+                        out.violation(s, d, json!({"part": "I", "end_old_first": end_old_first, "receiver_side": receiver_side, "trace": trace}));
+                    }
+                }
+                None => out.machinery_errors.push(format!("part I scenario died: {:?}", ex.panics)),
+            }
+        }
+    }
+    n
+}
+
 fn part_f(out: &mut Outcome) -> u64 {
     let mut n = 0;
     for opk in FOPS {
@@ -1638,6 +1747,8 @@ pub fn run(ctx: &Ctx) -> Outcome {
     let n_e = part_e(&mut out);
     out.set("part_e_listener_cases", n_e);
     let n_f = part_f(&mut out);
+    let n_i = part_i(&mut out);
+    out.set("resumed_on_another_session_cases", n_i);
     out.set("part_f_controller_cases", n_f);
     // ---- Part C: peer-initiated close/end/detach behind every write of the library
     let basec = {
